@@ -1856,6 +1856,56 @@ func stopCorpus() []Case {
 	return out
 }
 
+// orderCorpus: every order (length 2 and 3) of layer-level requests reaching ONE cached layer object -
+// SkipVerify, Verify(trusted D), Verify(D') - with an altered, not yet cached chunk read (or prefetched, or opened through
+// the passthrough merge) after the last request, and optionally also before it (the F9b residue class when the earlier
+// read was unverified). Fixed, so that generator tuning cannot lose any of these histories.
+func orderCorpus() []Case {
+	txt := make([]byte, 20)
+	for i := range txt {
+		txt[i] = byte('a' + i%7)
+	}
+	reqs := []Op{{Op: "lskip"}, {Op: "lverify", D: "orig"}, {Op: "lverify", D: "bad"}}
+	var seqs [][]Op
+	for _, a := range reqs {
+		for _, b := range reqs {
+			seqs = append(seqs, []Op{a, b})
+			for _, c := range reqs {
+				seqs = append(seqs, []Op{a, b, c})
+			}
+		}
+	}
+	whole := Op{Op: "read", F: 0, Off: 0, Len: 20}
+	tail := []Op{{Op: "probe", F: 0, I: 1}, {Op: "read", F: 0, Off: 8, Len: 8}, whole}
+	mk := func(direct bool) Case {
+		return Case{Comp: "gzip", ChunkSize: 8, Direct: direct, Files: []FileSpec{{"a", txt}}, Cors: []Cor{{Kind: "replace", F: 0, I: 1, Alt: 1}}}
+	}
+	var out []Case
+	for _, sq := range seqs {
+		// altered chunk first touched after the last request
+		c := mk(false)
+		c.Ops = append(append(c.Ops, sq...), whole)
+		c.Ops = append(c.Ops, tail...)
+		out = append(out, c)
+		// ... and also before the last request
+		c = mk(false)
+		c.Ops = append(append(c.Ops, sq[:len(sq)-1]...), whole, sq[len(sq)-1], whole)
+		c.Ops = append(c.Ops, tail...)
+		out = append(out, c)
+		if len(sq) == 2 {
+			// prefetch (one chunk, then Cache()) instead of a read
+			c = mk(false)
+			c.Ops = append(append(c.Ops, sq...), Op{Op: "pf", F: 0, I: 1}, Op{Op: "probe", F: 0, I: 1}, Op{Op: "cache"}, Op{Op: "lverify", D: "orig"}, whole)
+			out = append(out, c)
+			// passthrough open instead of a read
+			c = mk(true)
+			c.Ops = append(append(c.Ops, sq...), Op{Op: "pass", F: 0, Len: 16, I: 2}, Op{Op: "probe", F: 0, I: 1}, whole)
+			out = append(out, c)
+		}
+	}
+	return out
+}
+
 var (
 	theStore     metadata.Store
 	theStoreName string
@@ -1898,7 +1948,7 @@ func Main(store metadata.Store, name string) {
 		return
 	}
 	n := 0
-	for _, c := range append(corpus(), stopCorpus()...) {
+	for _, c := range append(append(corpus(), stopCorpus()...), orderCorpus()...) {
 		emit(c)
 		n++
 	}
